@@ -31,10 +31,11 @@ import traceback
 import gin
 from gin import config as gc
 
-BOUNDS = ('histories of 1..8 operations drawn from 46 concrete operations (parse of 19 '
-          'texts incl. failing ones, bind, call, finalize, unlock_config, constants incl. '
-          'interactive shadowing, intermediate clear/observe), then clear_config with '
-          'both values of clear_constants; quick: 62 fixed + 700 sampled, thorough: 62 + 14000')
+BOUNDS = ('histories of 1..8 operations drawn from 52 concrete operations (parse of 20 texts, 7 of '
+          'them failing, bind incl. invalid keys, calls in 3 scopes, finalize, unlock_config with a '
+          'raising body, constants incl. interactive shadowing, intermediate clear/observe), then '
+          'clear_config with both values of clear_constants; 52 single-operation + 192 scenario x '
+          'ending histories, then 450 (quick) / 14000 (thorough) sampled histories')
 EXHAUSTIVE = {'quick': False, 'thorough': False}
 
 _DYN = ('from __gin__ import dynamic_registration\n'
